@@ -77,3 +77,11 @@ Inductive dstmt :=
 | DOk.                 (* Ok(()) *)
 Inductive loop_cmp := LcLt | LcLe | LcGt | LcGe.
 Inductive pstmt := PLenAddFileLen | PHeapPush.
+
+(* TokenSet / Token (src/token_set.rs) *)
+Inductive ts_new_stmt :=
+| TNChannelOfSize        (* let (sender, receiver) = sync_channel(size) *)
+| TNFillTrySendUnwrap    (* for _ in 0..size { sender.try_send(()).unwrap(); } *)
+| TNSelf.                (* Self(sender, receiver) *)
+Inductive ts_drop_stmt := TDTrySendIgnore.        (* let _ = self.0.try_send(()) *)
+Inductive ts_take_stmt := TTRecvThenCloneSender.  (* receive one unit (blocking / async / with time-out), then Token(sender.clone()) *)
